@@ -149,6 +149,17 @@ fn gen_project(rng: &mut Rng, fenced: &BTreeSet<String>, builtins: &BTreeSet<Str
                 2 => text = format!("# généré — {}\n\n\n{}", p, text),
                 3 => text.push_str(&format!("def {prefix}uni := \"naïve — 日本語 ✓\"\n")),
                 4 if i > 0 => text = String::new(),
+                // a big file: source and output larger than the usual buffer sizes (8 KiB, 64 KiB,
+                // 128 KiB) — through a long string literal or a long leading doc string, which
+                // cost the checker nothing
+                5 => {
+                    let n = *g.rng.pick(&[9_000usize, 70_000, 140_000]);
+                    if !text.starts_with("from ") && g.rng.chance(1, 2) {
+                        text = format!("\"\"\" {}\"\"\"\n{}", "lorem ipsum dolor ".repeat(n / 18), text);
+                    } else {
+                        text.push_str(&format!("def {prefix}big := \"{}\"\n", "sit amet ".repeat(n / 9)));
+                    }
+                }
                 _ => {}
             }
             files.push(SrcFile { path: p.clone(), text });
